@@ -4,12 +4,14 @@ against (compared in `Rare.Props.C15` with what the translator regenerates from 
 -/
 namespace Rare.Follow.Expected
 
-/-- the watcher goroutine: Write → eventWrite, Remove → eventDelete, Create → eventWrite, events of
-    other names and other kinds (Rename, Chmod) → nothing; tested in this order -/
+/-- the watcher goroutine: Write → eventWrite, Remove → eventDelete, Rename (the followed name moved away) →
+    eventDelete with re-open and nothing without (`Rare.Follow.renameEv`), Create → eventWrite, events of
+    other names and other kinds (Chmod) → nothing; tested in this order -/
 def watcherSwitch : List (String × String) := [("!ok", "return"),
   ("path.Base(s.filename)!=path.Base(event.Name)", ""),
   ("event.Op&fsnotify.Write!=0", "writeSignalNonBlock(s.eventWrite)"),
   ("event.Op&fsnotify.Remove!=0", "writeSignalNonBlock(s.eventDelete)"),
+  ("event.Op&fsnotify.Rename!=0&&s.ReOpen", "writeSignalNonBlock(s.eventDelete)"),
   ("event.Op&fsnotify.Create!=0", "writeSignalNonBlock(s.eventWrite)")]
 
 def watcherSkeleton : List String := ["defer:watcher.Close", "for{", "recv:watcher.Events", "return", "}"]
